@@ -201,7 +201,7 @@ def stab_pair(n, r, seed, kind, order, defect, exps, k):
     if isinstance(c.p, bool) or not isinstance(c.p, (int, np.integer)):
         return FAIL(f'exponent {c.p!r} is not an integer')
     mx = [float(np.abs(G).max()) for G in c.Z]
-    if max(mx) > 2.0:
+    if not all(x <= 2.0 for x in mx):
         return FAIL(f'entries up to {max(mx):.3e}')
     if float(np.linalg.norm(c.D0)) <= 1e-12 * c.scale or c.scale == 0:
         return TRIVIAL('zero (or numerically zero) tensor: no mantissa normalisation expected')
